@@ -20,8 +20,14 @@ Proof. unfold century. lra. Qed.
 (* ------------------------------------------------------------------------- *)
 (* 1. ecliptic longitude, 3. distance: interval arithmetic with Taylor models *)
 (* ------------------------------------------------------------------------- *)
+(* Error budget of the property's 0.03 deg on the sphere (5.236e-4 rad):
+     longitude 0.0275 deg + obliquity 0.002 deg + sidereal time 1e-7 rad = 5.150e-4 rad.
+   Measured maxima over the century: longitude 0.00904 deg, obliquity 0.00111 deg,
+   distance 0.00047 AU (tighter bounds 0.0115 deg / 0.0012 deg also close with the same
+   tactic; the bounds below are those the property needs, so that a code change that stays
+   inside the property's tolerance does not break the proof). *)
 Lemma ecliptic_longitude_AA d : century d ->
-  Rabs (gen_sun_ecliptic_longitude d - deg2rad (lambda_AA d)) <= deg2rad (115 / 10000).
+  Rabs (gen_sun_ecliptic_longitude d - deg2rad (lambda_AA d)) <= deg2rad (275 / 10000).
 Proof.
   intros HT. apply century_days in HT.
   unfold gen_sun_ecliptic_longitude, lambda_AA, L_AA, g_AA, deg2rad; cbv zeta.
@@ -45,7 +51,7 @@ Definition eps_code (d : R) : R :=
               - 1813 / 1000000 * (d / 36525) * (d / 36525) * (d / 36525)) / 3600).
 
 Lemma eps_code_AA d : century d ->
-  Rabs (eps_code d - deg2rad (eps_AA d)) <= deg2rad (12 / 10000).
+  Rabs (eps_code d - deg2rad (eps_AA d)) <= deg2rad (2 / 1000).
 Proof.
   intros HT. apply century_days in HT.
   unfold eps_code, eps_AA, deg2rad.
@@ -356,7 +362,7 @@ Qed.
 (* ------------------------------------------------------------------------- *)
 Lemma radec_are_spherical d : century d ->
   exists eps : R,
-    Rabs (eps - deg2rad (eps_AA d)) <= deg2rad (12 / 10000) /\
+    Rabs (eps - deg2rad (eps_AA d)) <= deg2rad (2 / 1000) /\
     let lam := gen_sun_ecliptic_longitude d in
     gen_sun_dec d = asin (sin eps * sin lam) /\
     (cos lam <> -1 -> gen_sun_ra d = atan2 (cos eps * sin lam) (cos lam)) /\
@@ -374,8 +380,7 @@ Lemma obliquity_AA d : century d ->
     gen_sun_dec d = asin (sin eps * sin (gen_sun_ecliptic_longitude d)).
 Proof.
   intros HT. exists (eps_code d). split; [|apply sun_dec_form].
-  apply Rle_trans with (1 := eps_code_AA d HT).
-  unfold deg2rad. assert (H := PI_RGT_0). nra.
+  apply eps_code_AA. exact HT.
 Qed.
 
 Lemma sun_ra_shape d :
@@ -404,7 +409,7 @@ Qed.
 
 Lemma sun_vector d : century d -> cos (gen_sun_ecliptic_longitude d) <> -1 ->
   exists eps : R,
-    Rabs (eps - deg2rad (eps_AA d)) <= deg2rad (12 / 10000) /\
+    Rabs (eps - deg2rad (eps_AA d)) <= deg2rad (2 / 1000) /\
     let lam := gen_sun_ecliptic_longitude d in
     let ra := gen_sun_ra d in let dec := gen_sun_dec d in
     sph_x ra dec = ecl_x lam eps /\ sph_y ra dec = ecl_y lam eps /\ sph_z ra dec = ecl_z lam eps.
